@@ -43,6 +43,12 @@ pub struct BitMachine {
     write: Vec<Frame>,
     /// Acceptable source type
     source_ty: Arc<Final>,
+    /// High-water mark of `next_frame_start` (verification hook)
+    #[cfg(feature = "verif-hooks")]
+    verif_hw_cells: usize,
+    /// High-water mark of `read.len() + write.len()` (verification hook)
+    #[cfg(feature = "verif-hooks")]
+    verif_hw_frames: usize,
 }
 
 impl BitMachine {
@@ -57,7 +63,23 @@ impl BitMachine {
             read: Vec::with_capacity(program.bounds().extra_frames + analysis::IO_EXTRA_FRAMES),
             write: Vec::with_capacity(program.bounds().extra_frames + analysis::IO_EXTRA_FRAMES),
             source_ty: program.arrow().source.clone(),
+            #[cfg(feature = "verif-hooks")]
+            verif_hw_cells: 0,
+            #[cfg(feature = "verif-hooks")]
+            verif_hw_frames: 0,
         })
+    }
+
+    /// Verification hook: `(max cells in use, max frames in use, buffer bits, frame capacity)`
+    /// observed so far on this machine.
+    #[cfg(feature = "verif-hooks")]
+    pub fn verif_high_water(&self) -> (usize, usize, usize, usize) {
+        (
+            self.verif_hw_cells,
+            self.verif_hw_frames,
+            self.data.len() * 8,
+            self.read.capacity(),
+        )
     }
 
     #[cfg(test)]
@@ -89,6 +111,11 @@ impl BitMachine {
 
         self.write.push(Frame::new(self.next_frame_start, len));
         self.next_frame_start += len;
+        #[cfg(feature = "verif-hooks")]
+        {
+            self.verif_hw_cells = self.verif_hw_cells.max(self.next_frame_start);
+            self.verif_hw_frames = self.verif_hw_frames.max(self.write.len() + self.read.len());
+        }
     }
 
     /// Move the active write frame to the read frame stack
